@@ -212,13 +212,21 @@ pub fn run() -> i32 {
             let t2 = text.to_owned();
             let out = std::panic::catch_unwind(move || {
                 let state = slicec::compile_from_strings(&[&t2], Some(&SliceOptions::default()));
-                state.diagnostics.into_inner().iter().map(|d| (d.code().to_owned(), d.span().and_then(|s| text_at(&t2, s)))).collect::<Vec<_>>()
+                state.diagnostics.into_inner().iter().map(|d| (d.code().to_owned(), d.span().and_then(|s| text_at(&t2, s)), d.span().map(|s| (s.start.row, s.start.col)))).collect::<Vec<_>>()
             });
             match out {
                 Err(_) => rep.counterexample(text, "diagnostics", "PANIC"),
                 Ok(got) => {
-                    let want: Vec<(String, Option<String>)> = wants.iter().map(|(c, t)| (c.to_string(), Some(t.to_string()))).collect();
-                    if got != want { rep.counterexample(text, &format!("{want:?}"), &format!("{got:?}")); }
+                    // the span covers the element named -- or a non-empty part of it (a tighter span inside the element is as good)
+                    let char_offset = |row: usize, col: usize| -> usize { text.split('\n').take(row - 1).map(|l| l.chars().count() + 1).sum::<usize>() + col - 1 };
+                    let chars: Vec<char> = text.chars().collect();
+                    let inside = |want: &str, at: (usize, usize), got: &str| -> bool {
+                        let w: Vec<char> = want.chars().collect();
+                        let o = char_offset(at.0, at.1);
+                        (0..chars.len().saturating_sub(w.len()) + 1).any(|i| chars[i..i + w.len()] == w[..] && i <= o && o + got.chars().count() <= i + w.len())
+                    };
+                    let ok = got.len() == wants.len() && got.iter().zip(&wants).all(|((gc, gt, gp), (wc, wt))| gc == wc && match (gt, gp) { (Some(t), Some(p)) => t == wt || (!t.trim().is_empty() && inside(wt, *p, t)), _ => false });
+                    if !ok { rep.counterexample(text, &format!("{wants:?} (each span covering the element named, or a non-empty part of it)"), &format!("{:?}", got.iter().map(|g| (g.0.clone(), g.1.clone())).collect::<Vec<_>>())); }
                 }
             }
         }
